@@ -220,9 +220,29 @@ theorem strp_field (p : SPiece) (ps : List SPiece) (ds rest : Str) (acc : DT)
   | M => simp [strp, ht, hne]
   | S => simp [strp, ht, hne]
 
-theorem strp_lit (c : Nat) (ps : List SPiece) (xs : Str) (acc : DT) :
+theorem strp_lit (c : Nat) (hc : isPyWs c = false) (ps : List SPiece) (xs : Str) (acc : DT) :
     strp (.lit c :: ps) (c :: xs) acc = strp ps xs acc := by
-  simp [strp]
+  simp [strp, hc]
+
+theorem strp_ws_fail (ps : List SPiece) (x : Nat) (xs : Str) (acc : DT) (hx : isPyWs x = false) :
+    strp (.lit 32 :: ps) (x :: xs) acc = none := by
+  have h32 : isPyWs 32 = true := by decide
+  rw [strp]; simp [h32, hx]
+
+/-- step over a `-`, `:` or `.` of the format -/
+macro "strp_lit_step" : tactic =>
+  `(tactic| first
+    | rw [strp_lit 45 (by decide)]
+    | rw [strp_lit 58 (by decide)]
+    | rw [strp_lit 46 (by decide)])
+
+theorem strp_ws (ps : List SPiece) (ds rest : Str) (acc : DT) (hd : ∀ c ∈ ds, isDigit c = true) (hne : ds ≠ []) :
+    strp (.lit 32 :: ps) (32 :: (ds ++ rest)) acc = strp ps (ds ++ rest) acc := by
+  obtain ⟨c, t, rfl⟩ := List.exists_cons_of_ne_nil hne
+  have hc := (isDigit_iff c).1 (hd c (by simp))
+  have hw : isPyWs c = false := by simp [isPyWs]; omega
+  have h32 : isPyWs 32 = true := by decide
+  simp [strp, h32, List.dropWhile, hw]
 
 /-- the text a datetime is rendered to -/
 def bodyDT (v : DT) : Str :=
@@ -259,17 +279,17 @@ theorem strptime_bodyDT (v : DT) (hv : v.valid = true) :
   have e6 := fmtD_length_eq 5 v.us hus
   simp only [strptime, Extracted.fmtDateTime, bodyDT]
   rw [strp_field .Y _ _ _ _ (by simp) (fmtD_digits _ _) (fmtD_ne_nil _ _) (by simp [SPiece.width, e4]) (fun _ => e4) (by simp) (by simp [endsField, isDigit])]
-  rw [strp_lit]
+  strp_lit_step
   rw [strp_field .m _ _ _ _ (by simp) (fmtD_digits _ _) (fmtD_ne_nil _ _) (by simp [SPiece.width, e2 _ hmo]) (by simp) (by simp) (by simp [endsField, isDigit])]
-  rw [strp_lit]
+  strp_lit_step
   rw [strp_field .d _ _ _ _ (by simp) (fmtD_digits _ _) (fmtD_ne_nil _ _) (by simp [SPiece.width, e2 _ hd]) (by simp) (by simp) (by simp [endsField, isDigit])]
-  rw [strp_lit]
+  rw [strp_ws _ _ _ _ (fmtD_digits _ _) (fmtD_ne_nil _ _)]
   rw [strp_field .H _ _ _ _ (by simp) (fmtD_digits _ _) (fmtD_ne_nil _ _) (by simp [SPiece.width, e2 _ hh]) (by simp) (by simp) (by simp [endsField, isDigit])]
-  rw [strp_lit]
+  strp_lit_step
   rw [strp_field .M _ _ _ _ (by simp) (fmtD_digits _ _) (fmtD_ne_nil _ _) (by simp [SPiece.width, e2 _ hmi]) (by simp) (by simp) (by simp [endsField, isDigit])]
-  rw [strp_lit]
+  strp_lit_step
   rw [strp_field .S _ _ _ _ (by simp) (fmtD_digits _ _) (fmtD_ne_nil _ _) (by simp [SPiece.width, e2 _ hs]) (by simp) (by simp) (by simp [endsField, isDigit])]
-  rw [strp_lit]
+  strp_lit_step
   have := strp_field .f [] (fmtD 6 v.us) [] ⟨v.y, v.mo, v.d, v.h, v.mi, v.s, 0⟩ (by simp) (fmtD_digits _ _) (fmtD_ne_nil _ _) (by simp [SPiece.width, e6]) (by simp) (fun _ => e6) (by simp [endsField])
   simp only [List.append_nil] at this
   simp only [DT.set, valD_fmtD]
@@ -284,9 +304,9 @@ theorem strptime_bodyD (v : DT) (hv : v.valid = true) :
   have e4 := fmtD_length_eq 3 v.y hy
   simp only [strptime, Extracted.fmtDate, bodyD]
   rw [strp_field .Y _ _ _ _ (by simp) (fmtD_digits _ _) (fmtD_ne_nil _ _) (by simp [SPiece.width, e4]) (fun _ => e4) (by simp) (by simp [endsField, isDigit])]
-  rw [strp_lit]
+  strp_lit_step
   rw [strp_field .m _ _ _ _ (by simp) (fmtD_digits _ _) (fmtD_ne_nil _ _) (by simp [SPiece.width, e2 _ hmo]) (by simp) (by simp) (by simp [endsField, isDigit])]
-  rw [strp_lit]
+  strp_lit_step
   have := strp_field .d [] (fmtD 2 v.d) [] ⟨v.y, v.mo, 1, 0, 0, 0, 0⟩ (by simp) (fmtD_digits _ _) (fmtD_ne_nil _ _) (by simp [SPiece.width, e2 _ hd]) (by simp) (by simp) (by simp [endsField])
   simp only [List.append_nil] at this
   simp only [DT.set, valD_fmtD]
@@ -302,11 +322,11 @@ theorem strptime_bodyT (v : DT) (hv : v.valid = true) :
   have e6 := fmtD_length_eq 5 v.us hus
   simp only [strptime, Extracted.fmtTime, bodyT]
   rw [strp_field .H _ _ _ _ (by simp) (fmtD_digits _ _) (fmtD_ne_nil _ _) (by simp [SPiece.width, e2 _ hh]) (by simp) (by simp) (by simp [endsField, isDigit])]
-  rw [strp_lit]
+  strp_lit_step
   rw [strp_field .M _ _ _ _ (by simp) (fmtD_digits _ _) (fmtD_ne_nil _ _) (by simp [SPiece.width, e2 _ hmi]) (by simp) (by simp) (by simp [endsField, isDigit])]
-  rw [strp_lit]
+  strp_lit_step
   rw [strp_field .S _ _ _ _ (by simp) (fmtD_digits _ _) (fmtD_ne_nil _ _) (by simp [SPiece.width, e2 _ hs]) (by simp) (by simp) (by simp [endsField, isDigit])]
-  rw [strp_lit]
+  strp_lit_step
   have := strp_field .f [] (fmtD 6 v.us) [] ⟨1900, 1, 1, v.h, v.mi, v.s, 0⟩ (by simp) (fmtD_digits _ _) (fmtD_ne_nil _ _) (by simp [SPiece.width, e6]) (by simp) (fun _ => e6) (by simp [endsField])
   simp only [List.append_nil] at this
   simp only [DT.set, valD_fmtD]
@@ -598,5 +618,403 @@ theorem readBack_pickle (bs : Str) (hb : ∀ x ∈ bs, x < 256) : readBack .pick
     simp only [isAscii, List.all_eq_true, decide_eq_true_eq]; exact fun x hx => (hp x hx).2.2
   have hrt := roundtrip_text .pickle (b64enc bs) (by decide) h0
   simp [readBack, Res.bind, toDb, toPy, binFromPython, binToPython, stringV, hrt, hasc, b64dec_enc bs hb]
+
+theorem sqlEq_refl (c : DbVal) (h : c ≠ .null) : sqlEq c c = true := by
+  cases c with
+  | null => exact absurd rfl h
+  | integer i => simp [sqlEq]
+  | real t => simp [sqlEq]
+  | text s => simp [sqlEq]
+  | blob b => simp [sqlEq]
+
+theorem applyAff_integer_eq_numeric (v : DbVal) : applyAff .integer v = applyAff .numeric v := by
+  cases v with
+  | null => rfl
+  | integer i => rfl
+  | real t => cases t <;> rfl
+  | text s => simp [applyAff]
+  | blob b => rfl
+
+/-- the literal compared with the column evaluates, after the comparison conversion, to a value SQLite's `=`
+    holds equal to the stored cell -/
+theorem finds_generic (a : Aff) (v cell : DbVal) (hs : applyAff a v = some cell) (hn : cell ≠ .null)
+    (hx : a = .real → ∀ i, cell = .real (.ofInt i) → exactInt i = true) :
+    ∃ w, cmpConv a v = some w ∧ sqlEq cell w = true := by
+  cases a with
+  | text => exact ⟨cell, by simpa [cmpConv] using hs, sqlEq_refl cell hn⟩
+  | blob =>
+    refine ⟨cell, ?_, sqlEq_refl cell hn⟩
+    cases v <;> simp_all [cmpConv, applyAff]
+  | numeric =>
+    refine ⟨cell, ?_, sqlEq_refl cell hn⟩
+    cases v with
+    | real t => cases t <;> simp_all [cmpConv, applyAff]
+    | _ => simp_all [cmpConv, applyAff]
+  | integer =>
+    rw [applyAff_integer_eq_numeric] at hs
+    refine ⟨cell, ?_, sqlEq_refl cell hn⟩
+    cases v with
+    | real t => cases t <;> simp_all [cmpConv, applyAff]
+    | _ => simp_all [cmpConv, applyAff]
+  | real =>
+    cases v with
+    | null => simp [applyAff] at hs; exact absurd hs.symm hn
+    | blob b => exact ⟨cell, by simpa [applyAff, cmpConv] using hs, sqlEq_refl cell hn⟩
+    | integer i =>
+      simp [applyAff] at hs; subst hs
+      exact ⟨.integer i, by simp [cmpConv], by simp [sqlEq, hx rfl i rfl]⟩
+    | real t =>
+      simp [applyAff] at hs; subst hs
+      exact ⟨.real t, by simp [cmpConv], sqlEq_refl _ hn⟩
+    | text s =>
+      simp only [applyAff] at hs
+      by_cases hnum : isNumericText s = true
+      · simp only [hnum, if_true] at hs
+        cases hi : intText s with
+        | none => simp [hi] at hs
+        | some i =>
+          simp only [hi] at hs
+          by_cases h64 : int64 i = true
+          · simp [h64] at hs; subst hs
+            exact ⟨.integer i, by simp [cmpConv, applyAff, hnum, hi, h64], by simp [sqlEq, hx rfl i rfl]⟩
+          · simp [h64] at hs
+      · simp [hnum] at hs; subst hs
+        exact ⟨.text s, by simp [cmpConv, applyAff, hnum], by simp [sqlEq]⟩
+
+theorem whereFinds_of_store (T : ColT) (y : PyVal) (l : Str) (cell : DbVal) (hy : y ≠ .none)
+    (hl : lit y = .ok l) (hs : store (aff T) l = some cell) (hn : cell ≠ .null)
+    (hx : aff T = .real → ∀ i, cell = .real (.ofInt i) → exactInt i = true) :
+    whereFinds T y cell = .ok true := by
+  simp only [store] at hs
+  cases hv : evalLit l with
+  | none => simp [hv] at hs
+  | some v =>
+    simp [hv] at hs
+    obtain ⟨w, hw, he⟩ := finds_generic (aff T) v cell hs hn hx
+    cases y <;> simp_all [whereFinds]
+
+theorem takeWhile_all {α} (p : α → Bool) (l : List α) (h : ∀ a ∈ l, p a = true) : l.takeWhile p = l := by
+  induction l with
+  | nil => rfl
+  | cons a l ih => simp [List.takeWhile, h a (by simp), ih (fun b hb => h b (by simp [hb]))]
+
+theorem splitLastDot_none (b : Str) (h : 46 ∉ b) : splitLastDot b = none := by
+  have htw : List.takeWhile (· ≠ 46) b.reverse = b.reverse :=
+    takeWhile_all _ _ (by intro a ha; simp at ha; simp; intro e; subst e; exact h ha)
+  unfold splitLastDot
+  simp only [htw]
+  simp
+
+theorem no_dot_bodyD (v : DT) : 46 ∉ bodyD v := by
+  intro h
+  simp only [bodyD, List.mem_append, List.mem_cons] at h
+  rcases h with h | h | h | h | h
+  · exact fmtD_not_mem _ _ 46 (by decide) h
+  · simp at h
+  · exact fmtD_not_mem _ _ 46 (by decide) h
+  · simp at h
+  · exact fmtD_not_mem _ _ 46 (by decide) h
+
+/-- what `DateConverter` writes cannot be parsed with the DateTimeCol format -/
+theorem parse_dateTime_bodyD (v : DT) (hv : v.valid = true) : parseWith Extracted.fmtDateTime (bodyD v) = none := by
+  obtain ⟨hy, hmo, hd, _, _, _, _⟩ := DT.valid_bounds v hv
+  have e2 : ∀ n, n < 10 ^ 2 → (fmtD 2 n).length = 2 := fun n h => fmtD_length_eq 1 n h
+  have e4 := fmtD_length_eq 3 v.y hy
+  have hfix : fixMicro (bodyD v) = fmtD 4 v.y ++ 45 :: (fmtD 2 v.mo ++ 45 :: (fmtD 2 v.d ++ [46, 48])) := by
+    unfold fixMicro
+    rw [splitLastDot_none _ (no_dot_bodyD v)]
+    simp [bodyD]
+  unfold parseWith
+  rw [hasDotF_dt]
+  simp only [if_true, hfix, strptime, Extracted.fmtDateTime]
+  rw [strp_field .Y _ _ _ _ (by simp) (fmtD_digits _ _) (fmtD_ne_nil _ _) (by simp [SPiece.width, e4]) (fun _ => e4) (by simp) (by simp [endsField, isDigit])]
+  strp_lit_step
+  rw [strp_field .m _ _ _ _ (by simp) (fmtD_digits _ _) (fmtD_ne_nil _ _) (by simp [SPiece.width, e2 _ hmo]) (by simp) (by simp) (by simp [endsField, isDigit])]
+  strp_lit_step
+  rw [strp_field .d _ _ _ _ (by simp) (fmtD_digits _ _) (fmtD_ne_nil _ _) (by simp [SPiece.width, e2 _ hd]) (by simp) (by simp) (by simp [endsField, isDigit])]
+  rw [strp_ws_fail _ 46 _ _ (by decide)]
+
+/-- DateTimeCol / TimestampCol given a `datetime.date`: accepted, stored as 'YYYY-MM-DD', Invalid on read -/
+theorem readBack_dateTime_of_date (T : ColT) (hT : T = .dateTime ∨ T = .timestamp) (y mo d : Nat)
+    (hv : (⟨y, mo, d, 0, 0, 0, 0⟩ : DT).valid = true) :
+    toDb T (.date y mo d) = .ok (.date y mo d) ∧
+    roundtrip T (.date y mo d) = .ok (.str (bodyD ⟨y, mo, d, 0, 0, 0, 0⟩)) ∧
+    toPy T (.str (bodyD ⟨y, mo, d, 0, 0, 0, 0⟩)) = .invalid := by
+  have ha : aff T = .numeric := by rcases hT with rfl | rfl <;> decide
+  refine ⟨?_, ?_, ?_⟩
+  · rcases hT with rfl | rfl <;> simp [toDb, dtFromPython, passes, Extracted.dtFromPythonPass]
+  · exact roundtrip_text_numeric T _ _ ha (by simp [lit, render_d]) (plain_bodyD _) (isNumericText_bodyD _)
+  · rcases hT with rfl | rfl <;> simp [toPy, dtToPython, passes, parse_dateTime_bodyD _ hv]
+
+/-- well-formed values of the universe: NUL-free text, bytes < 256, calendar-valid dates and times -/
+def wf : PyVal → Prop
+  | .str s => 0 ∉ s
+  | .bytes b => ∀ x ∈ b, x < 256
+  | .datetime y mo d h mi s us => (⟨y, mo, d, h, mi, s, us⟩ : DT).valid = true
+  | .date y mo d => (⟨y, mo, d, 0, 0, 0, 0⟩ : DT).valid = true
+  | .time h mi s us => (⟨1900, 1, 1, h, mi, s, us⟩ : DT).valid = true
+  | .decimal t => 0 ∉ t
+  | .uuid t => 0 ∉ t
+  | .json t => 0 ∉ t
+  | .pickled b => ∀ x ∈ b, x < 256
+  | _ => True
+
+def isDateTimeT (T : ColT) : Bool := T == .dateTime || T == .timestamp
+def isIntLikeT (T : ColT) : Bool :=
+  T == .int || T == .tinyInt || T == .smallInt || T == .mediumInt || T == .bigInt || T == .fkInt
+    || T == .decimal || T == .currency
+
+/-- (column, value) pairs the CURRENT code accepts and then cannot read back, or alters (each replayed on the
+    implementation by the harness under its own key) -/
+def knownBad (T : ColT) (x : PyVal) : Bool :=
+  match x with
+  | .date .. => isDateTimeT T || T == .time
+  | .time .. => isDateTimeT T || T == .date
+  | .int i => (isIntLikeT T && !int64 i) || (T == .float && !exactInt i)
+  | .sqlobj id => T == .fkInt && !int64 id
+  | .str s => T == .fkInt && (match intText s with | some i => !int64 i | none => false)
+  | _ => false
+
+/-- pairs whose codec is an uninterpreted stdlib function, or a parser run on arbitrary text -/
+def outsideFragment (T : ColT) (x : PyVal) : Bool :=
+  match x with
+  | .float _ => true
+  | .decimal _ => T == .decimal || T == .currency
+  | .str _ => T == .date || T == .time
+  | _ => false
+
+def Readable (T : ColT) (x y : PyVal) : Prop :=
+  roundtrip T y = .reject ∨ ∃ v, (roundtrip T y).bind (toPy T) = .ok v ∧ normalises T x v = true
+
+theorem readable_of (T : ColT) (x y r v : PyVal) (hr : roundtrip T y = .ok r) (hp : toPy T r = .ok v)
+    (hn : normalises T x v = true) : Readable T x y :=
+  Or.inr ⟨v, by simp [hr, hp, Res.bind], hn⟩
+
+theorem roundtrip_none (T : ColT) : roundtrip T .none = .ok .none := by
+  simp [roundtrip, lit, evalLit, Extracted.nullLit, applyAff, fetch]
+
+theorem roundtrip_bool (T : ColT) (b : Bool) (ha : aff T = .integer ∨ aff T = .numeric) :
+    roundtrip T (.bool b) = .ok (.int (if b then 1 else 0)) := by
+  rcases ha with ha | ha <;> cases b <;>
+    simp [roundtrip, lit, Extracted.boolTrue, Extracted.boolFalse, evalLit, Extracted.nullLit, numLit, isDigit, valD,
+      int64, ha, applyAff, fetch]
+
+theorem zero_not_mem_reprInt (i : Int) : 0 ∉ reprInt i := by
+  have hz : ∀ n, 0 ∉ showNat n := fun n h => by have := showNat_digits n 0 h; simp [isDigit] at this
+  unfold reprInt; split
+  · simp; exact hz _
+  · exact hz _
+
+theorem pyEq_refl (v : PyVal) : pyEq v v = true := by
+  cases v <;> simp [pyEq]
+
+theorem norm_refl (T : ColT) (v : PyVal) : normalises T v v = true := by simp [normalises, pyEq_refl]
+
+theorem accepted_string (x y : PyVal) (hw : wf x) (h : toDb .string x = .ok y) : Readable .string x y := by
+  cases x <;> simp [toDb, stringV] at h <;> subst h
+  · exact readable_of _ _ _ _ _ (roundtrip_none _) (by simp [toPy, stringV]) (norm_refl _ _)
+  · exact readable_of _ _ _ _ _ (roundtrip_text _ _ (by decide) hw) (by simp [toPy, stringV]) (norm_refl _ _)
+  · exact Or.inl (by simp [roundtrip, lit])
+
+theorem accepted_unicode (x y : PyVal) (hw : wf x) (h : toDb .unicode x = .ok y) : Readable .unicode x y := by
+  cases x <;> simp [toDb, unicodeV] at h <;> subst h
+  · exact readable_of _ _ _ _ _ (roundtrip_none _) (by simp [toPy, unicodeV]) (norm_refl _ _)
+  · exact readable_of _ _ _ _ _ (roundtrip_text _ _ (by decide) hw) (by simp [toPy, unicodeV]) (norm_refl _ _)
+
+theorem accepted_int (T : ColT) (hT : intFamily T) (x y : PyVal) (hk : knownBad T x = false)
+    (h : toDb T x = .ok y) : Readable T x y := by
+  have ha := aff_intFamily T hT
+  have hdb : toDb T x = intV x := by rcases hT with rfl | rfl | rfl | rfl | rfl <;> rfl
+  have hpy : ∀ r, toPy T r = intV r := by intro r; rcases hT with rfl | rfl | rfl | rfl | rfl <;> rfl
+  have hil : isIntLikeT T = true := by rcases hT with rfl | rfl | rfl | rfl | rfl <;> rfl
+  rw [hdb] at h
+  cases x <;> simp [intV] at h <;> subst h
+  · exact readable_of _ _ _ _ _ (roundtrip_none _) (by simp [hpy, intV]) (norm_refl _ _)
+  · rename_i b
+    exact readable_of _ _ _ (.int (if b then 1 else 0)) (.int (if b then 1 else 0)) (roundtrip_bool T b (Or.inl ha))
+      (by simp [hpy, intV]) (by cases b <;> simp [normalises, pyEq])
+  · rename_i i
+    have h64 : int64 i = true := by simp [knownBad, hil] at hk; exact hk.1
+    exact readable_of _ _ _ _ _ (roundtrip_int T i (Or.inl ha) h64) (by simp [hpy, intV]) (norm_refl _ _)
+
+theorem accepted_bool (x y : PyVal) (h : toDb .bool x = .ok y) : Readable .bool x y := by
+  have ha : aff .bool = .numeric := by decide
+  cases x <;> simp [toDb, boolV] at h <;> subst h
+  · exact readable_of _ _ _ _ _ (roundtrip_none _) (by simp [toPy, boolV]) (norm_refl _ _)
+  · rename_i b
+    exact readable_of _ _ _ (.int (if b then 1 else 0)) (.bool b) (roundtrip_bool .bool b (Or.inr ha))
+      (by cases b <;> simp [toPy, boolV]) (norm_refl _ _)
+  · rename_i i
+    exact readable_of _ _ _ (.int (if (i != 0) then 1 else 0)) (.bool (i != 0)) (roundtrip_bool .bool _ (Or.inr ha))
+      (by cases h : (i != 0) <;> simp [toPy, boolV, h]) (by simp [normalises, coerces])
+
+theorem roundtrip_float_int (i : Int) : roundtrip .float (.int i) = .ok (.float (.ofInt i)) := by
+  have ha : aff .float = .real := by decide
+  by_cases h : int64 i = true <;> simp [roundtrip, lit, evalLit_reprInt, h, ha, applyAff, fetch]
+
+theorem accepted_float (x y : PyVal) (hf : outsideFragment .float x = false) (hk : knownBad .float x = false)
+    (h : toDb .float x = .ok y) : Readable .float x y := by
+  have ha : aff .float = .real := by decide
+  cases x <;> simp [toDb, floatV] at h <;> subst h
+  · exact readable_of _ _ _ _ _ (roundtrip_none _) (by simp [toPy, floatV]) (norm_refl _ _)
+  · rename_i b
+    have hr : roundtrip .float (.bool b) = .ok (.float (.ofInt (if b then 1 else 0))) := by
+      cases b <;> simp [roundtrip, lit, Extracted.boolTrue, Extracted.boolFalse, evalLit, Extracted.nullLit, numLit,
+        isDigit, valD, int64, ha, applyAff, fetch]
+    exact readable_of _ _ _ _ (.float (.ofInt (if b then 1 else 0))) hr (by simp [toPy, floatV])
+      (by cases b <;> simp [normalises, pyEq])
+  · rename_i i
+    have hx : exactInt i = true := by simpa [knownBad, isIntLikeT] using hk
+    exact readable_of _ _ _ _ (.float (.ofInt i)) (roundtrip_float_int i) (by simp [toPy, floatV])
+      (by simp [normalises, pyEq, hx])
+  · simp [outsideFragment] at hf
+
+theorem readable_of_readBack (T : ColT) (x y v : PyVal) (hdb : toDb T y = .ok y) (hrb : readBack T y = .ok v)
+    (hn : normalises T x v = true) : Readable T x y := by
+  simp only [readBack, hdb, Res.bind] at hrb
+  exact Or.inr ⟨v, hrb, hn⟩
+
+theorem accepted_dateTime (T : ColT) (hT : T = .dateTime ∨ T = .timestamp) (x y : PyVal) (hw : wf x)
+    (hk : knownBad T x = false) (h : toDb T x = .ok y) : Readable T x y := by
+  have hdb : toDb T x = dtFromPython x := by rcases hT with rfl | rfl <;> rfl
+  have hdt : isDateTimeT T = true := by rcases hT with rfl | rfl <;> rfl
+  rw [hdb] at h
+  cases x <;> simp [dtFromPython, passes, Extracted.dtFromPythonPass, knownBad, hdt] at h hk <;> subst h
+  · exact readable_of _ _ _ _ _ (roundtrip_none _) (by rcases hT with rfl | rfl <;> simp [toPy, dtToPython]) (norm_refl _ _)
+  · rename_i y mo d h mi s us
+    have := readBack_dateTime T hT ⟨y, mo, d, h, mi, s, us⟩ hw
+    have hdb' : toDb T (dtOf ⟨y, mo, d, h, mi, s, us⟩) = .ok (dtOf ⟨y, mo, d, h, mi, s, us⟩) := by
+      rcases hT with rfl | rfl <;> simp [toDb, dtFromPython, dtOf, passes, Extracted.dtFromPythonPass]
+    exact readable_of_readBack T _ _ _ hdb' this (norm_refl _ _)
+
+theorem valid_date_part (y mo d h mi s us : Nat) (hv : (⟨y, mo, d, h, mi, s, us⟩ : DT).valid = true) :
+    (⟨y, mo, d, 0, 0, 0, 0⟩ : DT).valid = true := by
+  simp [DT.valid] at hv ⊢; omega
+
+theorem valid_time_part (y mo d h mi s us : Nat) (hv : (⟨y, mo, d, h, mi, s, us⟩ : DT).valid = true) :
+    (⟨1900, 1, 1, h, mi, s, us⟩ : DT).valid = true := by
+  simp [DT.valid, daysIn, isLeap] at hv ⊢; omega
+
+theorem accepted_date (x y : PyVal) (hw : wf x) (hf : outsideFragment .date x = false)
+    (hk : knownBad .date x = false) (h : toDb .date x = .ok y) : Readable .date x y := by
+  cases x <;> simp [toDb, dateToPython, dtToPython, passes, Extracted.dtToPythonPass, knownBad, outsideFragment] at h hk hf
+  · subst h; exact readable_of _ _ _ _ _ (roundtrip_none _) (by simp [toPy, dateToPython, dtToPython]) (norm_refl _ _)
+  · rename_i y' mo d hh mi s us
+    subst h
+    exact readable_of_readBack .date _ (.date y' mo d) (.date y' mo d) (by simp [toDb, dateToPython])
+      (readBack_date y' mo d (valid_date_part _ _ _ _ _ _ _ hw)) (by simp [normalises, coerces])
+  · rename_i y' mo d
+    subst h
+    exact readable_of_readBack .date _ (.date y' mo d) (.date y' mo d) (by simp [toDb, dateToPython])
+      (readBack_date y' mo d hw) (norm_refl _ _)
+
+theorem accepted_time (x y : PyVal) (hw : wf x) (hf : outsideFragment .time x = false)
+    (hk : knownBad .time x = false) (h : toDb .time x = .ok y) : Readable .time x y := by
+  cases x <;> simp [toDb, timeToPython, dtToPython, passes, Extracted.dtToPythonPass, knownBad, outsideFragment] at h hk hf
+  · subst h; exact readable_of _ _ _ _ _ (roundtrip_none _) (by simp [toPy, timeToPython, dtToPython]) (norm_refl _ _)
+  · rename_i y' mo d hh mi s us
+    subst h
+    exact readable_of_readBack .time _ (.time hh mi s us) (.time hh mi s us) (by simp [toDb, timeToPython])
+      (readBack_time hh mi s us (valid_time_part _ _ _ _ _ _ _ hw)) (by simp [normalises, coerces])
+  · rename_i hh mi s us
+    subst h
+    exact readable_of_readBack .time _ (.time hh mi s us) (.time hh mi s us) (by simp [toDb, timeToPython])
+      (readBack_time hh mi s us hw) (norm_refl _ _)
+
+theorem readable_via (T : ColT) (x x' y v : PyVal) (hdb : toDb T x' = .ok y) (hrb : readBack T x' = .ok v)
+    (hn : normalises T x v = true) : Readable T x y := by
+  simp only [readBack, hdb, Res.bind] at hrb
+  exact Or.inr ⟨v, hrb, hn⟩
+
+theorem accepted_decimal (T : ColT) (hT : T = .decimal ∨ T = .currency) (x y : PyVal)
+    (hf : outsideFragment T x = false) (hk : knownBad T x = false) (h : toDb T x = .ok y) : Readable T x y := by
+  have ha : aff T = .numeric := by rcases hT with rfl | rfl <;> decide
+  have hil : isIntLikeT T = true := by rcases hT with rfl | rfl <;> rfl
+  have hTf : (T == ColT.decimal || T == ColT.currency) = true := by rcases hT with rfl | rfl <;> rfl
+  cases x <;> (rcases hT with rfl | rfl <;> simp [toDb, outsideFragment] at h hf) <;> subst h
+  all_goals first
+    | exact readable_of _ _ _ _ _ (roundtrip_none _) (by simp [toPy]) (norm_refl _ _)
+    | (rename_i b
+       exact readable_of _ _ _ (.int (if b then 1 else 0)) (.int (if b then 1 else 0)) (roundtrip_bool _ b (Or.inr ha))
+         (by simp [toPy]) (by cases b <;> simp [normalises, pyEq]))
+    | (rename_i i
+       have h64 : int64 i = true := by simp [knownBad, isIntLikeT] at hk; exact hk
+       exact readable_of _ _ _ _ _ (roundtrip_int _ i (Or.inr ha) h64) (by simp [toPy]) (norm_refl _ _))
+
+theorem accepted_decimalString (x y : PyVal) (hw : wf x) (h : toDb .decimalString x = .ok y) :
+    Readable .decimalString x y := by
+  have ha : aff .decimalString = .text := by decide
+  cases x <;> simp [toDb] at h <;> subst h
+  · exact readable_of _ _ _ _ _ (roundtrip_none _) (by simp [toPy, stringV]) (norm_refl _ _)
+  · rename_i i
+    exact readable_of _ _ _ _ (.decimal (reprInt i)) (roundtrip_text _ _ ha (zero_not_mem_reprInt i))
+      (by simp [toPy, stringV]) (by simp [normalises, coerces])
+  · rename_i t
+    exact readable_of _ _ _ _ (.decimal t) (roundtrip_text _ _ ha hw) (by simp [toPy, stringV]) (norm_refl _ _)
+
+theorem accepted_enum (vals : List Str) (x y : PyVal) (hw : wf x) (h : toDb (.enum vals) x = .ok y) :
+    Readable (.enum vals) x y := by
+  cases x <;> simp [toDb, enumV] at h
+  · subst h; exact readable_of _ _ _ _ _ (roundtrip_none _) (by simp [toPy, enumV]) (norm_refl _ _)
+  · rename_i s
+    by_cases hs : s ∈ vals <;> simp [hs] at h
+    subst h
+    exact readable_of _ _ _ _ (.str s) (roundtrip_text _ _ (aff_enum vals) hw) (by simp [toPy, enumV, hs]) (norm_refl _ _)
+
+theorem accepted_blob (x y : PyVal) (hw : wf x) (h : toDb .blob x = .ok y) : Readable .blob x y := by
+  cases x <;> simp [toDb, binFromPython, Res.bind, stringV] at h <;> subst h
+  · exact readable_of _ _ _ _ _ (roundtrip_none _) (by simp [toPy, stringV, Res.bind, binToPython]) (norm_refl _ _)
+  · rename_i bs
+    exact readable_via .blob _ (.bytes bs) _ _ (by simp [toDb, binFromPython, Res.bind, stringV]) (readBack_blob bs hw)
+      (norm_refl _ _)
+
+theorem accepted_pickle (x y : PyVal) (hw : wf x) (h : toDb .pickle x = .ok y) : Readable .pickle x y := by
+  cases x <;> simp [toDb, binFromPython, Res.bind, stringV] at h <;> subst h
+  · exact readable_of _ _ _ _ _ (roundtrip_none _) (by simp [toPy, stringV, Res.bind, binToPython]) (norm_refl _ _)
+  · rename_i bs
+    exact readable_via .pickle _ (.pickled bs) _ _ (by simp [toDb, binFromPython, Res.bind, stringV])
+      (readBack_pickle bs hw) (norm_refl _ _)
+
+theorem accepted_uuid (x y : PyVal) (hw : wf x) (h : toDb .uuid x = .ok y) : Readable .uuid x y := by
+  have ha : aff .uuid = .text := by decide
+  cases x <;> simp [toDb] at h <;> subst h
+  · exact readable_of _ _ _ _ _ (roundtrip_none _) (by simp [toPy]) (norm_refl _ _)
+  · rename_i t
+    exact readable_of _ _ _ _ (.uuid t) (roundtrip_text _ _ ha hw) (by simp [toPy]) (norm_refl _ _)
+
+theorem accepted_json (x y : PyVal) (hw : wf x) (h : toDb .json x = .ok y) : Readable .json x y := by
+  have ha : aff .json = .text := by decide
+  cases x <;> simp [toDb] at h <;> subst h
+  · exact readable_of _ _ _ _ _ (roundtrip_none _) (by simp [toPy]) (norm_refl _ _)
+  · rename_i t
+    exact readable_of _ _ _ _ (.json t) (roundtrip_text _ _ ha hw) (by simp [toPy]) (norm_refl _ _)
+
+theorem accepted_fk (x y : PyVal) (hk : knownBad .fkInt x = false) (h : toDb .fkInt x = .ok y) :
+    Readable .fkInt x y := by
+  have ha : aff .fkInt = .integer := by decide
+  cases x <;> simp [toDb, fkFromPython] at h
+  · subst h; exact readable_of _ _ _ _ _ (roundtrip_none _) (by simp [toPy]) (norm_refl _ _)
+  · rename_i b
+    subst h
+    exact readable_of _ _ _ _ (.int (if b then 1 else 0)) (roundtrip_int _ _ (Or.inl ha) (by cases b <;> decide))
+      (by simp [toPy]) (by cases b <;> simp [normalises, pyEq])
+  · rename_i i
+    subst h
+    have h64 : int64 i = true := by simpa [knownBad, isIntLikeT] using hk
+    exact readable_of _ _ _ _ (.int i) (roundtrip_int _ _ (Or.inl ha) h64) (by simp [toPy]) (norm_refl _ _)
+  · rename_i s
+    cases hi : intText s with
+    | none => simp [hi] at h; split at h <;> simp at h
+    | some i =>
+      simp [hi] at h; subst h
+      have h64 : int64 i = true := by simpa [knownBad, hi] using hk
+      exact readable_of _ _ _ _ (.int i) (roundtrip_int _ _ (Or.inl ha) h64) (by simp [toPy])
+        (by simp [normalises, coerces, hi])
+  · rename_i id
+    subst h
+    have h64 : int64 id = true := by simpa [knownBad] using hk
+    have hr : roundtrip .fkInt (.sqlobj id) = .ok (.int id) := by
+      simp [roundtrip, lit, evalLit_reprInt, h64, ha, applyAff, fetch]
+    exact readable_of _ _ _ _ (.int id) hr (by simp [toPy]) (by simp [normalises, coerces])
 
 end SqlObjVerif.Codec
